@@ -395,7 +395,7 @@ def lineage_threads(ctx, r, runs=None):
     reqs = []
     for _ in range(runs):
         pool = r.shuffle(THREAD_POOL)
-        reqs.append("LINTHR %d %d MYSQL %s" % (r.choice([4, 6, 8]), 400 if ctx.quick else 1500, " ".join(E.enhex(t) for t in pool)))
+        reqs.append("LINTHR %d %d MYSQL %s" % (r.choice([4, 6, 8]), 300 if ctx.quick else 1500, " ".join(E.enhex(t) for t in pool)))
     import os
     old_limit = os.environ.get("MSQ_REQ_TIMEOUT")
     os.environ["MSQ_REQ_TIMEOUT"] = "120"            # one request = thousands of calls
